@@ -2,6 +2,7 @@ package sim
 
 import (
 	"bytes"
+	"encoding/gob"
 	"fmt"
 	"path/filepath"
 	"sort"
@@ -10,6 +11,7 @@ import (
 
 	"github.com/itchio/headway/state"
 	"github.com/itchio/wharf/pwr/bowl"
+	"github.com/itchio/wharf/pwr/patcher"
 	"pgregory.net/rapid"
 )
 
@@ -104,6 +106,12 @@ func TestC17(t *testing.T) {
 			wlPaths[source.Files[i].Path] = true
 		}
 
+		// the application may be stopped at checkpoints and resumed on the same patcher, like the
+		// suite's with-saves run: counts and contents must come out the same
+		var ssc *stopSC
+		if rapid.IntRange(0, 2).Draw(rt, "stopresume") == 0 {
+			ssc = &stopSC{Every: rapid.IntRange(1, 4).Draw(rt, "saveevery"), StopsLeft: rapid.IntRange(1, 6).Draw(rt, "stops"), Skip: rapid.IntRange(0, 5).Draw(rt, "skipsaves")}
+		}
 		rb := &recBowl{}
 		current := ""
 		var pool *Pool
@@ -112,6 +120,8 @@ func TestC17(t *testing.T) {
 		ar := ApplyFresh(patch, oldDir, outDir, ApplyOpts{
 			PatchSlice: drawSlicer(rt, "patchslice"),
 			Whitelist:  wl,
+			Save:       ssc.consumer(),
+			OnStop:     ssc.onStop(),
 			Consumer:   cons,
 			WrapBowl:   func(b bowl.Bowl) bowl.Bowl { rb.Bowl = b; return rb },
 			OnPool: func(p *Pool) {
@@ -144,7 +154,8 @@ func TestC17(t *testing.T) {
 				Violation(rt, "C17/bowl-asked-outside-whitelist", "bowl was asked to write/copy file %d (%s), not in whitelist %v (patch %s)", i, source.Files[i].Path, keys(wl), desc)
 				return
 			}
-			if c != 1 {
+			// a file in progress when the patcher was stopped is asked for again on resume
+			if c > 1+ar.Stops {
 				Violation(rt, "C17/bowl-asked-twice", "bowl was asked %d times for file %d", c, i)
 				return
 			}
@@ -171,6 +182,8 @@ func TestC17(t *testing.T) {
 				return
 			}
 		}
+		Ev.ProbeIf(ar.Stops > 0, "stopped_and_resumed_on_the_same_patcher")
+		Ev.Fault("stop_resume_same_patcher", ar.Stops)
 		Ev.ProbeIf(len(wl) == 0, "empty_whitelist")
 		Ev.ProbeIf(len(wl) == n && n > 0, "full_whitelist")
 		Ev.ProbeIf(len(rb.Transpos) > 0, "whole_file_copy_whitelisted")
@@ -181,6 +194,59 @@ func TestC17(t *testing.T) {
 			return m
 		})
 	})
+}
+
+// stopSC stops the patcher at some of the checkpoints it is offered.
+type stopSC struct {
+	Every, StopsLeft, Skip int
+	calls                  int
+	last                   []byte
+}
+
+func (s *stopSC) ShouldSave() bool {
+	s.calls++
+	return s.calls%s.Every == 0
+}
+
+func (s *stopSC) Save(c *patcher.Checkpoint) (patcher.AfterSaveAction, error) {
+	if s.Skip > 0 {
+		s.Skip--
+		return patcher.AfterSaveContinue, nil
+	}
+	if s.StopsLeft == 0 {
+		return patcher.AfterSaveContinue, nil
+	}
+	var buf bytes.Buffer
+	if err := gob.NewEncoder(&buf).Encode(c); err != nil {
+		return patcher.AfterSaveContinue, nil
+	}
+	s.last = buf.Bytes()
+	s.StopsLeft--
+	return patcher.AfterSaveStop, nil
+}
+
+func (s *stopSC) consumer() patcher.SaveConsumer {
+	if s == nil {
+		return nil
+	}
+	return s
+}
+
+func (s *stopSC) onStop() func() *patcher.Checkpoint {
+	if s == nil {
+		return nil
+	}
+	return func() *patcher.Checkpoint {
+		if s.last == nil {
+			return nil
+		}
+		c := &patcher.Checkpoint{}
+		if gob.NewDecoder(bytes.NewReader(s.last)).Decode(c) != nil {
+			return nil
+		}
+		s.last = nil
+		return c
+	}
 }
 
 func keys(m map[int64]bool) []int64 {
